@@ -23,6 +23,7 @@ type c19Spec struct {
 	FailEach int        `json:"fail_every_nth_settings_statement"`
 	Event    string     `json:"event"` // steady converge diverge operator_enable operator_disable switch_to_lagging switch_from offline_by_lag register_just_above_high
 	Stopped  int        `json:"replica_with_stopped_replication"`
+	NoSemi   bool       `json:"semi_sync_off"` // the pre-switchover turbo phase exists only with semi-sync; without it the switchover itself must switch optimisation off
 	Subject  int        `json:"subject_replica"` // register_just_above_high: which replica (the daemons start 0.7 s apart, so this varies the phase between its health checks and the manager's ticks)
 }
 
@@ -48,6 +49,10 @@ func c19Gen(seed int64, idx int) c19Spec {
 	if r.Intn(3) == 0 {
 		sp.FailEach = 2 + r.Intn(5)
 	}
+	sp.NoSemi = r.Intn(3) == 0
+	if sp.Event == "switch_to_lagging" || sp.Event == "switch_from" {
+		sp.NoSemi = (idx/len(c19Events))%2 == 0
+	}
 	if sp.Event == "register_just_above_high" {
 		// the first replica is clean, unregistered and not lagging until the event; no failing statements
 		sp.Subject = r.Intn(sp.N - 1)
@@ -72,6 +77,7 @@ func c19Run(u *Unit) {
 	master := hosts[0]
 	opts := Opts{HA: hosts, Seed: u.Seed, Workload: true, WorkloadOnly: []string{master}, PreConverged: true,
 		Cfg: func(h string, c *config.Config) {
+			c.SemiSync = !sp.NoSemi
 			c.OptimizationConfig.HighReplicationMark = time.Duration(c19High) * time.Second
 			c.OptimizationConfig.LowReplicationMark = time.Duration(c19Low) * time.Second
 			c.OfflineModeEnableLag = 400 * time.Second
@@ -336,7 +342,7 @@ func c19Run(u *Unit) {
 		mu.Unlock()
 		sc.Stat("iterations_judged_after_sync", sy)
 		sc.Stat("registry_drops", dr)
-		sc.Coverf("opt|event=%s|n=%d|reg=%v|ghost=%v|fail=%d|drops=%d|promos=%d", sp.Event, sp.N, sp.Reg, sp.Ghost, sp.FailEach, min(dr, 3), pr)
+		sc.Coverf("opt|event=%s|n=%d|reg=%v|ghost=%v|fail=%d|drops=%d|promos=%d|semi=%v", sp.Event, sp.N, sp.Reg, sp.Ghost, sp.FailEach, min(dr, 3), pr, !sp.NoSemi)
 		sc.Obs("event %s, lags %s, registry %v, operator-relaxed %v, ghost %v, failing every %d-th settings statement: %d iterations judged after their sync, %d registry drops, %d promotions", sp.Event, lagStr(sp.Lags), sp.Reg, sp.PreRelax, sp.Ghost, sp.FailEach, sy, dr, pr)
 	})
 }
@@ -358,5 +364,5 @@ func init() {
 		Floor: func(string) []string {
 			return []string{"one-replica-optimizing", "registry-drop", "drop-of-unregistered-host", "promotion", "converged-or-unknown-lag-host", "registered-just-above-the-high-mark"}
 		},
-		Rule: "scenario = 3-5 node cluster with per-replica lag around both marks {10,59,60,119,120,121,500}, a replica with stopped replication (unknown lag), initial registry entries (none / new / enabled, plus an unregistered host), settings already relaxed by the operator, every k-th settings statement failing, and an event (steady, lags converge, lags diverge, operator enables all, operator disables all, planned switchover to a lagging target, switchover from the master, replica taken offline by lag, replica registered while its falling lag is just above the high mark under a slow manager whose health-record reads are stale when it acts); oracles on ground truth: after every completed manager iteration that ran its sync at most one replica carries relaxed settings last written by mysync and none untracked, every registry drop by a daemon finds the host's settings equal to the master's (or the host unregistered), promotions find the target unrelaxed and unregistered, a freeze begins with no relaxed member, converged / unknown-lag hosts end restored and dropped; distinct by the cover tuple"})
+		Rule: "scenario = 3-5 node cluster (semi-sync off in a third) with per-replica lag around both marks {10,59,60,119,120,121,500}, a replica with stopped replication (unknown lag), initial registry entries (none / new / enabled, plus an unregistered host), settings already relaxed by the operator, every k-th settings statement failing, and an event (steady, lags converge, lags diverge, operator enables all, operator disables all, planned switchover to a lagging target, switchover from the master, replica taken offline by lag, replica registered while its falling lag is just above the high mark under a slow manager whose health-record reads are stale when it acts); oracles on ground truth: after every completed manager iteration that ran its sync at most one replica carries relaxed settings last written by mysync and none untracked, every registry drop by a daemon finds the host's settings equal to the master's (or the host unregistered), promotions find the target unrelaxed and unregistered, a freeze begins with no relaxed member, converged / unknown-lag hosts end restored and dropped; distinct by the cover tuple"})
 }
